@@ -1,30 +1,11 @@
 // C03 harness: generated struct codecs — round trip, wire conformance against an independent
-// strict reference decoder, correspondence with the Lean schema model.
+// strict reference decoder, correspondence with the Lean schema model; over the framework's own
+// protocol structs and over random IDL compiled by the working tree's tars2go.
 package main
 
 import (
 	"verifharness/codecrun"
-	"verifharness/common"
 	"verifharness/fwtypes"
 )
 
-func main() {
-	o := common.ParseOpts()
-	e, err := codecrun.NewEngine("C03", o, fwtypes.Types())
-	if err != nil {
-		r := common.NewResult("C03", o)
-		r.Fatal(o.Out, err)
-	}
-	defer e.M.Close()
-	n := 200
-	if o.Thorough() {
-		n = 5000
-	}
-	e.RunC03(n)
-	e.Res.Rule = "per registered generated struct type: type-directed random values (boundary integers, random/NaN/±0/Inf floats, " +
-		"strings 0..300 bytes incl. arbitrary bytes, nil/empty/large containers, optional members at their default with p=1/3); " +
-		"non-trivial = distinct (type, encoded bytes) with a non-empty encoding"
-	if err := e.Res.Write(o.Out); err != nil {
-		panic(err)
-	}
-}
+func main() { codecrun.Launch("C03", fwtypes.Types) }
